@@ -363,9 +363,18 @@ def coq_eval(tag, header, terms, per_shard=None, timeout=900):
     with ThreadPoolExecutor(max_workers=NPROC) as ex:
         rs = list(ex.map(run, range(len(shards))))
     out, logs = [], ""
-    for r, l in rs:
+    failed = []
+    for ix, (r, l) in enumerate(rs):
+        if l and len(shards[ix]) > 1:
+            failed.append((len(out), shards[ix]))
         out.extend(r)
-        logs += l
+        logs += l[-600:]
+    # a failing shard is re-evaluated case by case, so that one bad case does not hide the others
+    if failed and per_shard != 1:
+        for pos, terms_ in failed:
+            sub, sublogs = coq_eval(tag + "r", header, terms_, per_shard=1, timeout=min(timeout, 120))
+            out[pos:pos + len(terms_)] = sub
+            logs += sublogs[-600:]
     return out, logs
 
 
